@@ -4,3 +4,5 @@ pub mod feat;
 pub mod iso;
 pub mod norm;
 pub mod reach;
+pub mod sections;
+pub mod ident;
